@@ -1,0 +1,11 @@
+//go:build verif
+
+package trie
+
+// Thin exported wrappers for the /verif harness (engine "trie").
+
+// VerifNumNodes calls numNodes on the root (observes removeEmpty).
+func (t *Trie) VerifNumNodes() int { return numNodes(t.root) }
+
+// VerifParseIgnoreBytes calls parseIgnoreBytes.
+func VerifParseIgnoreBytes(ig string) ([]bool, error) { return parseIgnoreBytes(ig) }
